@@ -235,6 +235,18 @@ let eval (kind : ostring) (ins : ostring list) : ostring list =
   | "gep_parse", [e; src; fs; bodies] -> [show_ty_opt (gep_parse (parse_bodies bodies) (parse_ty e) (parse_ty src) (parse_forms fs))]
   | "ir_type", [sh; bodies] -> [show_ty_opt (c06_ir (parse_bodies bodies) (parse_shape06 sh))]
   | "asm_type", [sh; bodies] -> [show_ty_opt (c06_asm (parse_bodies bodies) (parse_shape06 sh))]
+  | "assign_ids", [items] ->
+    let parsed = List.map (fun t -> match Stdlib.String.split_on_char ':' t with
+      | [n; id; v; obj] -> (mk_item (n = "1") (z_of_dec id) (v = "1"), n = "1", obj = "1") | _ -> failwith "item")
+      (Stdlib.String.split_on_char ',' items) in
+    [match c08_assign (List.map (fun (i, _, _) -> i) parsed) with
+     | None -> "Err"
+     | Some r -> "Ok " ^ Stdlib.String.concat "," (List.map2 (fun it (_, named, obj) -> if named || not obj then "-" else dec_of_z (it_id it)) r parsed)]
+  | "print_after_parse", [ents] ->
+    let l = List.map (fun t -> match Stdlib.String.split_on_char ':' t with
+      | [k; n] -> mk_gent (nat_of_int (match k with "G" -> 0 | "A" -> 1 | "I" -> 2 | _ -> 3)) (n = "1") | _ -> failwith "gent")
+      (Stdlib.String.split_on_char ',' ents) in
+    [if c08_print_after_parse l then "Ok" else "Err"]
   | _ -> failwith ("unknown kind " ^ kind)
 
 let () =
